@@ -31,6 +31,469 @@ def _err_kind(e) -> str:
     return type(e).__name__
 
 
+def _bits_fast(mask_2d) -> str:
+    """same string as `_bits`, built without a Python-level loop (large frames)"""
+    a = np.asarray(mask_2d, dtype=bool).ravel()
+    return (a.astype(np.uint8) + 48).tobytes().decode("ascii")
+
+
+def _bits_arr(bits: str, h: int, w: int):
+    a = np.frombuffer(bits.encode("ascii"), dtype=np.uint8) == 49
+    return a.reshape(h, w)
+
+
+def _grid_f(g):
+    """(n,2) list of plain floats (lossless in JSON; `Cmp` and the oracles convert exactly)"""
+    a = np.asarray(g.array if hasattr(g, "array") else g, dtype=float).reshape(-1, 2)
+    return a.tolist()
+
+
+# ---------------------------------------------------------------------------------------------------
+# Round 4 (L1): masks described by a short *spec* instead of a bit string, so that frames of 10^4..10^5
+# pixels stay replayable (the replay file stores the spec) and shrinkable (window, op list).
+#   spec = {"H":…, "W":…, "ops":[…], "win":[y0,y1,x0,x1]?}   (all-masked canvas, ops in order, then the window)
+#   ["rect",y0,y1,x0,x1,val]  ["px",y,x,val]  ["fill",n,y0,y1,x0,x1] (first n cells, row-major, unmasked)
+#   ["stripes",y0,y1,x0,x1,step] (every step-th row unmasked)  ["bern",seed,num,den,y0,y1,x0,x1] (hash noise,
+#   unmasks)  ["diag",y0,x0,n,dx] (diagonal chain of n unmasked pixels)            val: 0 = unmasked, 1 = masked
+# ---------------------------------------------------------------------------------------------------
+def _hash_bits(H, W, seed, num, den):
+    ys, xs = np.mgrid[0:H, 0:W]
+    v = (ys.astype(np.uint64) * np.uint64(73856093)) ^ (xs.astype(np.uint64) * np.uint64(19349663)) \
+        ^ np.uint64((seed * 83492791 + 12345) % (1 << 62))
+    v = (v * np.uint64(2654435761)) >> np.uint64(7)
+    return (v % np.uint64(den)) < np.uint64(num)
+
+
+def spec_mask(spec):
+    H, W = int(spec["H"]), int(spec["W"])
+    m = np.ones((H, W), dtype=bool)
+
+    def c(v, hi):
+        return max(0, min(int(v), hi))
+
+    for op in spec.get("ops", []):
+        k = op[0]
+        if k == "rect":
+            _, y0, y1, x0, x1, val = op
+            m[c(y0, H):c(y1, H), c(x0, W):c(x1, W)] = bool(val)
+        elif k == "px":
+            _, y, x, val = op
+            if 0 <= y < H and 0 <= x < W:
+                m[y, x] = bool(val)
+        elif k == "fill":
+            _, n, y0, y1, x0, x1 = op
+            y0, y1, x0, x1 = c(y0, H), c(y1, H), c(x0, W), c(x1, W)
+            rw = x1 - x0
+            if rw > 0 and y1 > y0:
+                n = max(0, min(int(n), rw * (y1 - y0)))
+                full_rows, rest = divmod(n, rw)
+                m[y0:y0 + full_rows, x0:x1] = False
+                if rest:
+                    m[y0 + full_rows, x0:x0 + rest] = False
+        elif k == "stripes":
+            _, y0, y1, x0, x1, step = op
+            m[c(y0, H):c(y1, H):max(1, int(step)), c(x0, W):c(x1, W)] = False
+        elif k == "bern":
+            _, seed, num, den, y0, y1, x0, x1 = op
+            y0, y1, x0, x1 = c(y0, H), c(y1, H), c(x0, W), c(x1, W)
+            hb = _hash_bits(H, W, seed, num, den)[y0:y1, x0:x1]
+            m[y0:y1, x0:x1] &= ~hb
+        elif k == "diag":
+            _, y0, x0, n, dx = op
+            for i in range(int(n)):
+                y, x = y0 + i, x0 + dx * i
+                if 0 <= y < H and 0 <= x < W:
+                    m[y, x] = False
+    y0, y1, x0, x1 = spec.get("win", [0, H, 0, W])
+    return m[c(y0, H):c(y1, H), c(x0, W):c(x1, W)].copy()
+
+
+def case_mask(case):
+    """the boolean mask (True = masked) a case starts from"""
+    if "spec" in case:
+        return spec_mask(case["spec"])
+    return mask_from_json(case["mask"])
+
+
+def _np_mask_json(m):
+    m = np.asarray(m, dtype=bool)
+    return {"h": int(m.shape[0]), "w": int(m.shape[1]) if m.ndim == 2 else 0, "bits": _bits_fast(m)}
+
+
+def _factor_near(n, direction):
+    """(h, w), h < w, 3 <= h, w <= 8 h, with h*w the closest product to n in `direction`
+    (-1: <= n, 0: == n or None, +1: >= n)"""
+    def fac(k):
+        if k < 12:
+            return None
+        r = int(k ** 0.5)
+        best = None
+        for h in range(r, 2, -1):
+            if k % h == 0:
+                w = k // h
+                if w == h:
+                    continue
+                if w > 8 * h:
+                    break
+                best = (h, w)
+                break
+        return best
+
+    if direction == 0:
+        return fac(n)
+    k = n
+    for _ in range(400):
+        f = fac(k)
+        if f:
+            return f
+        k += direction
+        if k < 12:
+            return None
+    return None
+
+
+def _odd_factor_near(n, direction):
+    """odd kernel shape (kh, kw), kh < kw where possible, with kh*kw closest to n in `direction`"""
+    k = n
+    for _ in range(200):
+        if k >= 1 and k % 2 == 1:
+            r = int(k ** 0.5)
+            for a in range(r, 0, -1):
+                if a % 2 == 1 and k % a == 0:
+                    b = k // a
+                    if b <= 6 * a + 4:
+                        return (a, b)
+                    break
+        k += direction if direction else 1
+        if direction == 0:
+            return None
+        if k < 1:
+            return None
+    return None
+
+
+SET_KEYS = ["edge_slim", "border_slim", "edge_native", "border_native", "edge_mask", "border_mask",
+            "edge_grid", "border_grid"]
+MASK_DECOYS = ["pixels_in_mask", "is_all_true", "is_all_false", "shape_slim", "shape_native",
+               "shape_native_masked_pixels", "mask_centre", "zoom_centre", "zoom_offset_pixels",
+               "zoom_offset_scaled", "zoom_region", "zoom_shape_native", "zoom_mask_unmasked", "is_circular",
+               "circular_radius", "geometry", "native", "pixel_scale", "dimensions"]
+DI_DECOYS = ["unmasked_slim", "masked_slim", "native_for_slim"]
+DM_DECOYS = ["all_false", "edge_buffed"]
+DG_DECOYS = ["all_false", "unmasked"]
+PERTURB = Fraction(1, 1 << 18)      # ~3.8e-6 relative: inside np.allclose's default, far outside 1e-9
+TINY = Fraction(1, 1 << 27)         # ~7.5e-9 absolute: inside np.allclose's atol, outside 1e-9 near the origin
+
+
+class _Hist:
+    """Interpreter of a typed history (Round 4, L2).  With impl=False it only evolves the SHADOW state (plain
+    numpy arrays that never share memory with anything the library holds) and returns, per observing step, what a
+    FRESHLY BUILT object in that state must give; with impl=True it also drives the real, REUSED objects and
+    returns what they gave.  Every mutation is applied with the same numpy semantics on both sides
+    (`a[key] = v` in place, `np.where(key, v, a)` for boolean-array keys as `AbstractNDArray.__setitem__` does),
+    including whether it raises."""
+
+    def __init__(self, case, impl):
+        self.case = case
+        self.impl = impl
+        self.worlds = {}
+        self.cur = "A"
+        self.entries = []
+        if impl:
+            self.aa = load_autoarray()
+        self._new_world("A", case_mask(case), case.get("scales", ["1", "1"]), case.get("origin", ["0", "0"]))
+
+    # -- worlds
+    def _new_world(self, name, sh, sc, og, obj=None, arr=None):
+        w = {"sh": sh, "sc": list(sc), "og": list(og), "target": name}
+        if self.impl:
+            if obj is None:
+                obj = self.aa.Mask2D(mask=np.array(sh, dtype=bool), pixel_scales=tuple(float(Fraction(v)) for v in sc),
+                                     origin=tuple(float(Fraction(v)) for v in og))
+            w["obj"] = obj
+            w["held"] = [obj.derive_indexes, obj.derive_mask, obj.derive_grid]
+            w["arr"] = np.array(sh, dtype=bool) if arr is None else arr
+            w["klist"] = [1, 1]
+        self.worlds[name] = w
+        self.cur = name
+        return w
+
+    def _target(self, held):
+        w = self.worlds[self.cur]
+        return self.worlds.get(w["target"], w) if held else w
+
+    # -- one step
+    def apply(self, st):
+        op = st.get("op")
+        fn = getattr(self, "_op_" + str(op), None)
+        if fn is not None and self.cur in self.worlds:
+            fn(st)
+
+    def run(self):
+        for st in self.case.get("steps", []):
+            self.apply(st)
+        return self.entries
+
+    @staticmethod
+    def _key(st):
+        how, a = st["how"], st["args"]
+        if how in ("px", "attr"):
+            return (int(a[0]), int(a[1])), False
+        if how == "row":
+            return int(a[0]), False
+        if how == "slice":
+            return (slice(a[0], a[1]), slice(a[2], a[3])), False
+        return _bits_arr(a["bits"], a["h"], a["w"]), True       # "bool", "boolobj"
+
+    def _op_set(self, st):
+        w = self.worlds[self.cur]
+        key, rebinding = self._key(st)
+        val = bool(st["value"])
+
+        def do(a):
+            if rebinding:
+                return np.where(key, val, a)
+            a[key] = val
+            return a
+
+        raised = False
+        try:
+            w["sh"] = do(w["sh"])
+        except Exception:
+            raised = True
+        if not self.impl:
+            self.entries.append({"t": "set", "raised": raised})
+            return
+        obs = False
+        try:
+            if st["how"] == "attr":
+                w["obj"].mask[key] = val
+            elif st["how"] == "boolobj":
+                w["obj"][self.aa.Mask2D(mask=key, pixel_scales=1.0)] = val
+            else:
+                w["obj"][key] = val
+        except Exception:
+            obs = True
+        try:
+            w["arr"] = do(w["arr"])
+        except Exception:
+            pass
+        self.entries.append({"raised": obs})
+
+    def _op_freeze(self, st):
+        w = self.worlds[self.cur]
+        on = bool(st.get("on", 1))
+        raised = False
+        try:
+            w["sh"].setflags(write=not on)
+        except Exception:
+            raised = True
+        if not self.impl:
+            self.entries.append({"t": "set", "raised": raised})
+            return
+        obs = False
+        try:
+            w["obj"].mask.setflags(write=not on)
+        except Exception:
+            obs = True
+        try:
+            w["arr"].setflags(write=not on)
+        except Exception:
+            pass
+        self.entries.append({"raised": obs})
+
+    def _op_setgeom(self, st):
+        """re-assign the public geometry attributes of the SAME Mask2D object"""
+        w = self.worlds[self.cur]
+        w["sc"], w["og"] = list(st["scales"]), list(st["origin"])
+        if self.impl:
+            w["obj"].pixel_scales = tuple(float(Fraction(v)) for v in st["scales"])
+            w["obj"].origin = tuple(float(Fraction(v)) for v in st["origin"])
+
+    def _op_world(self, st):
+        self._new_world(st["name"], _bits_arr(st["bits"], st["h"], st["w"]).copy(), st["scales"], st["origin"])
+
+    def _op_switch(self, st):
+        if st["name"] in self.worlds:
+            self.cur = st["name"]
+
+    def _op_repoint(self, st):
+        w = self.worlds[self.cur]
+        if st["to"] not in self.worlds:
+            return
+        w["target"] = st["to"]
+        if self.impl:
+            for hobj in w["held"]:
+                hobj.mask = self.worlds[st["to"]]["obj"]
+
+    def _op_derive(self, st):
+        import copy as _copy
+
+        w = self.worlds[self.cur]
+        how = st["how"]
+        obj = arr = None
+        try:
+            if how in ("copy", "deepcopy", "copy_method", "invert2"):
+                sh = w["sh"].copy()
+            elif how == "rows":
+                sh = w["sh"][st["args"][0]:st["args"][1]]
+            elif how == "win":
+                a = st["args"]
+                sh = w["sh"][a[0]:a[1], a[2]:a[3]]
+            elif how == "with_new_array":
+                a = st["args"]
+                sh = _bits_arr(a["bits"], a["h"], a["w"]).copy()
+            else:
+                return
+            if self.impl:
+                o = w["obj"]
+                if how == "copy":
+                    obj, arr = _copy.copy(o), w["arr"].copy()
+                elif how == "deepcopy":
+                    obj, arr = _copy.deepcopy(o), w["arr"].copy()
+                elif how == "copy_method":
+                    obj, arr = o.copy(), w["arr"].copy()
+                elif how == "invert2":
+                    obj, arr = o.invert().invert(), w["arr"].copy()
+                elif how == "rows":
+                    obj, arr = o[st["args"][0]:st["args"][1]], w["arr"][st["args"][0]:st["args"][1]]
+                elif how == "win":
+                    a = st["args"]
+                    obj, arr = o[a[0]:a[1], a[2]:a[3]], w["arr"][a[0]:a[1], a[2]:a[3]]
+                else:
+                    obj, arr = o.with_new_array(sh.copy()), sh.copy()
+        except Exception:
+            return
+        if sh.ndim != 2 or sh.shape[0] == 0 or sh.shape[1] == 0:
+            return
+        self._new_world(st["name"], sh, w["sc"], w["og"], obj=obj, arr=arr)
+
+    # -- observations
+    def _decoy(self, w, held):
+        tgt = self._target(held)
+        obj = tgt["obj"]
+        di, dm, dg = w["held"] if held else (obj.derive_indexes, obj.derive_mask, obj.derive_grid)
+        for o, names in ((obj, MASK_DECOYS), (di, DI_DECOYS), (dm, DM_DECOYS), (dg, DG_DECOYS)):
+            for n in names:
+                try:
+                    getattr(o, n)
+                except Exception:
+                    pass
+
+    def _get(self, w, held, key):
+        obj = self._target(held)["obj"]
+        if held:
+            di, dm, dg = w["held"]
+        else:
+            di, dm, dg = obj.derive_indexes, obj.derive_mask, obj.derive_grid
+        if key in ("edge_slim", "border_slim"):
+            return {key: [int(v) for v in getattr(di, key)]}
+        if key in ("edge_native", "border_native"):
+            return {key: [[int(a), int(b)] for a, b in np.asarray(getattr(di, key)).reshape(-1, 2)]}
+        if key in ("edge_mask", "border_mask"):
+            return {key: _bits(getattr(dm, key[:-5]))}
+        if key in ("edge_grid", "border_grid"):
+            g = getattr(dg, key[:-5])
+            return {key: _grid(g), key + "_mask": _bits(g.mask)}
+        if key in MASK_DECOYS:
+            getattr(obj, key)
+        elif key in DI_DECOYS:
+            getattr(di, key)
+        return {}
+
+    def _op_touch(self, st):
+        if not self.impl:
+            return
+        w = self.worlds[self.cur]
+        held = st.get("via") == "held"
+        for k in st.get("keys", []):
+            try:
+                self._get(w, held, k)
+            except Exception:
+                pass
+
+    def _op_read(self, st):
+        w = self.worlds[self.cur]
+        via = st.get("via", "fresh")
+        held = via == "held"
+        tgt = self._target(held)
+        if not self.impl:
+            self.entries.append({"t": "read", "via": via, "state": np.array(tgt["sh"], dtype=bool), "sc": tgt["sc"],
+                                 "og": tgt["og"]})
+            return
+        try:
+            if st.get("decoy"):
+                self._decoy(w, held)
+            if via == "util":
+                from autoarray.mask import mask_2d_util
+
+                a = w["arr"]
+                order = st.get("order", SET_KEYS)
+                fns = [("edge_slim", lambda: [int(v) for v in mask_2d_util.edge_1d_indexes_from(mask_2d=a)]),
+                       ("border_slim", lambda: [int(v) for v in mask_2d_util.border_slim_indexes_from(mask_2d=a)]),
+                       ("total_edge", lambda: int(mask_2d_util.total_edge_pixels_from(mask_2d=a)))]
+                if order and order[0] in ("border_slim", "border_native", "border_mask", "border_grid"):
+                    fns = [fns[1], fns[2], fns[0]]
+                obs = {}
+                for k, f in fns:
+                    obs[k] = f()
+            else:
+                obs = {}
+                for k in st.get("order", SET_KEYS):
+                    if k in SET_KEYS:
+                        obs.update(self._get(w, held, k))
+        except Exception as e:
+            obs = {"err": type(e).__name__, "msg": str(e)[:200]}
+        self.entries.append(obs)
+
+    def _op_blur(self, st):
+        w = self.worlds[self.cur]
+        via = st.get("via", "mask")
+        held = bool(st.get("held")) and via != "util"
+        tgt = self._target(held)
+        kh, kw = int(st["kh"]), int(st["kw"])
+        want_grid = bool(st.get("grid")) and via != "util"
+        if not self.impl:
+            self.entries.append({"t": "blur", "via": via, "state": np.array(tgt["sh"], dtype=bool), "sc": tgt["sc"],
+                                 "og": tgt["og"], "kh": kh, "kw": kw, "grid": want_grid})
+            return
+        from autoarray import exc
+        from autoarray.mask import mask_2d_util
+
+        kform = st.get("kform", "tuple")
+        if kform == "list":
+            ks = [kh, kw]
+        elif kform == "np_int":
+            ks = (np.int64(kh), np.int64(kw))
+        elif kform == "held_list":
+            ks = w["klist"]
+            ks[0], ks[1] = kh, kw
+        else:
+            ks = (kh, kw)
+        try:
+            if via == "util":
+                bm = mask_2d_util.blurring_mask_2d_from(mask_2d=w["arr"], kernel_shape_native=ks)
+                obs = {"blurring_mask": _bits(bm)}
+            else:
+                obj = tgt["obj"]
+                dm = w["held"][1] if held else None
+                grid = None
+                if want_grid and via == "grid_first":
+                    grid = _grid(self.aa.Grid2D.blurring_grid_from(mask=obj, kernel_shape_native=ks))
+                bm = (dm if dm is not None else obj.derive_mask).blurring_from(kernel_shape_native=ks)
+                obs = {"blurring_mask": _bits(bm),
+                       "geometry_kept": [q(v) for v in (*bm.pixel_scales, *bm.origin)] == [*tgt["sc"], *tgt["og"]]}
+                if want_grid:
+                    if grid is None:
+                        grid = _grid(self.aa.Grid2D.blurring_grid_from(mask=obj, kernel_shape_native=ks))
+                    obs["blurring_grid"] = grid
+        except exc.MaskException as e:
+            obs = {"err": _err_kind(e)}
+        except Exception as e:
+            obs = {"err": type(e).__name__, "msg": str(e)[:200]}
+        self.entries.append(obs)
+
+
 class C10(PropertyCheck):
     pid = "C10"
     title = "blurring / edge / border sets"
@@ -47,6 +510,8 @@ class C10(PropertyCheck):
                     "all public views: every such mask with H*W <= 12; blurring masks: every mask with "
                     "H*W <= 12 x kernels {1,3,5}x{1,3,5}",
     }
+    # loop ties (DESIGN §12): regenerated from the source on every run, tie theorems proved for all sizes
+    loop_tie_modules = ["LoopsMaskSets", "LoopsBorder"]
     modelled_functions = [
         "autoarray/mask/mask_2d_util.py:blurring_mask_2d_from",
         "autoarray/mask/mask_2d_util.py:check_if_edge_pixel",
@@ -73,6 +538,15 @@ class C10(PropertyCheck):
         "autoarray/geometry/geometry_util.py:central_scaled_coordinate_2d_from",
         "autoarray/structures/grids/uniform_2d.py:Grid2D.blurring_grid_from",
         "autoarray/structures/grids/uniform_2d.py:Grid2D.from_mask",
+        # glue the history stream (Round 4) drives: the accessors that build the derive objects and the in-place
+        # edit path.  Listed so that a change there escalates the search and so that new size constants in these
+        # files become size hints.
+        "autoarray/mask/mask_2d.py:Mask2D.derive_indexes",
+        "autoarray/mask/mask_2d.py:Mask2D.derive_mask",
+        "autoarray/mask/mask_2d.py:Mask2D.derive_grid",
+        "autoarray/mask/derive/mask_2d.py:DeriveMask2D.derive_indexes",
+        "autoarray/abstract_ndarray.py:AbstractNDArray.__setitem__",
+        "autoarray/abstract_ndarray.py:AbstractNDArray.__copy__",
     ]
     trusted_extra = [
         "numpy fancy indexing `native_for_slim[edge_slim]`, `mask[rows, cols] = False` and the Mask2D / Grid2D "
@@ -168,6 +642,527 @@ class C10(PropertyCheck):
             kh, kw = rng.choice([(2, 3), (3, 2), (4, 4), (2, 1), (1, 4)])
             yield {"tag": "blur_even", "kind": "blurring", "mask": mask_json(m), "kh": kh, "kw": kw,
                    "grid": False}
+        # 6. Round 4 (L2): typed histories on REAL reused objects; every observing step is compared with the
+        #    model / oracle value of a freshly built object in that state
+        for c in self.history_cases(rng, 100 if quick else 700):
+            yield c
+
+    # ------------------------------------------------------------------ constant-directed sizes (Round 4, L1)
+    LARGE_BUDGET_S = 45.0      # estimated pure-Python cost of the whole stream
+    LARGE_CASE_MAX_S = 8.0
+    KERNELS_LARGE = [(3, 3), (3, 5), (5, 3), (1, 3), (3, 1), (7, 3), (5, 7)]
+
+    @staticmethod
+    def _cost(kind, hw, unmasked, kpix=9):
+        if kind == "blurring":
+            return 0.25e-6 * hw + 1.0e-6 * unmasked * kpix + 0.002
+        if kind == "util":
+            return 4e-6 * hw + 30e-6 * unmasked + 0.002
+        return 25e-6 * hw + 150e-6 * unmasked + 0.005
+
+    @staticmethod
+    def _sizes(c):
+        return [("below", c - 1), ("at", c), ("above", c + 1), ("mid", c + c // 3 + 1), ("dbl", 2 * c + 1)]
+
+    def generate_large(self, hints, rng):
+        """cases whose sizes straddle every new integer constant `c` of the anchored source, in EVERY size
+        dimension the C10 code loops over: frame pixels H*W (non-square), rows, columns, unmasked pixels, edge
+        pixels, kernel pixels, kernel side — each combined with what makes a wrong answer visible (footprints
+        that fit exactly / leave by exactly one row or column on each of the four sides, holes, diagonal contacts,
+        several components, ring contact, anisotropic off-origin geometry).  Frames above MODEL_MAX_PIXELS are
+        judged by the vectorised oracle alone."""
+        cands = []   # (cost, order, case)
+
+        def geom():
+            return self._geom(rng)
+
+        def add(kind, dim, where, c, spec, unmasked_est, **kw):
+            hw = spec["H"] * spec["W"]
+            if hw > 400000:
+                return
+            kpix = kw.get("kh", 3) * kw.get("kw", 3)
+            cost = self._cost(kind, hw, int((~spec_mask(spec)).sum()), kpix) * (2.0 if dim == "edge" else 1.0)
+            if cost > self.LARGE_CASE_MAX_S:
+                return
+            sc, og = geom()
+            case = {"tag": f"large_{dim}_{kind}", "kind": kind, "large": 1, "hint": c, "where": where, "spec": spec,
+                    "scales": sc, "origin": og, **kw}
+            if kind == "blurring":
+                case.setdefault("grid", True)
+            cands.append((cost, len(cands), case))
+
+        def blob_ops(H, W, my, mx, seed):
+            """interior structure that respects margins (my, mx): blob with holes, a diagonal chain touching it
+            only corner-to-corner, a noisy patch, a second component"""
+            ih, iw = H - 2 * my, W - 2 * mx
+            if ih < 1 or iw < 1:
+                return []
+            y0, x0 = my + ih // 5, mx + iw // 6
+            y1, x1 = max(y0 + 1, my + (3 * ih) // 5), max(x0 + 1, mx + (2 * iw) // 3)
+            ops = [["rect", y0, y1, x0, x1, 0], ["px", (y0 + y1) // 2, (x0 + x1) // 2, 1],
+                   ["px", (y0 + y1) // 2 + 1, (x0 + x1) // 2 + 1, 1]]
+            n = max(0, min(6, H - my - y1, W - mx - x1))
+            if n:
+                ops.append(["diag", y1, x1, n, 1])
+            if ih > 12 and iw > 12:
+                ops.append(["bern", seed, 1, 3, H - my - ih // 5, H - my, mx, mx + iw // 3])
+                ops.append(["rect", my, my + 2, W - mx - 3, W - mx, 0])
+            return ops
+
+        def blur_family(dim, where, c, H, W, seed):
+            """interior / exact-fit on each side / leave-by-one on each side, for a few kernels"""
+            for ki, (kh, kw) in enumerate(self.KERNELS_LARGE):
+                if ki >= 3 and where not in ("above", "below"):
+                    continue
+                hy, hx = kh // 2, kw // 2
+                if H < kh + 2 or W < kw + 2:
+                    continue
+                base = blob_ops(H, W, hy + 1, hx + 1, seed)
+                un = (H * W) // 3
+                add("blurring", dim, where, c, {"H": H, "W": W, "ops": base}, un, kh=kh, kw=kw)
+                sides = {"top": ["px", hy, W // 2, 0], "bottom": ["px", H - 1 - hy, W // 3, 0],
+                         "left": ["px", H // 2, hx, 0], "right": ["px", H // 3, W - 1 - hx, 0],
+                         "corner": ["px", H - 1 - hy, W - 1 - hx, 0]}
+                for side, pxop in sides.items():       # footprint reaches the last row / column exactly: a result
+                    add("blurring", dim, where, c, {"H": H, "W": W, "ops": base + [pxop]}, un, kh=kh, kw=kw,
+                        note=f"fits_{side}")
+                leave = {}
+                if hy >= 1:
+                    leave["top"] = ["px", hy - 1, W // 2, 0]
+                    leave["bottom"] = ["px", H - hy, W // 3, 0]
+                if hx >= 1:
+                    leave["left"] = ["px", H // 2, hx - 1, 0]
+                    leave["right"] = ["px", H // 3, W - hx, 0]
+                for side, pxop in leave.items():       # leaves the array by exactly one row / column: an error
+                    add("blurring", dim, where, c, {"H": H, "W": W, "ops": base + [pxop]}, un, kh=kh, kw=kw,
+                        note=f"leaves_{side}_by_one")
+                    add("blurring", dim, where, c, {"H": H, "W": W, "ops": [pxop]}, 1, kh=kh, kw=kw,
+                        note=f"single_leaves_{side}_by_one")
+            add("blurring", dim, where, c, {"H": H, "W": W, "ops": []}, 0, kh=3, kw=5, note="nothing_unmasked")
+
+        def sets_family(dim, where, c, H, W, seed, kinds=("sets", "util")):
+            base = blob_ops(H, W, 0, 0, seed)
+            ring = base + [["rect", 0, 1, W // 4, W // 2, 0], ["rect", H - 1, H, W // 2, W - 1, 0],
+                           ["rect", H // 4, H // 2, 0, 1, 0], ["rect", H // 3, H - 2, W - 1, W, 0],
+                           ["px", H - 1, W - 1, 0], ["px", 0, 0, 0]]
+            un = (H * W) // 3
+            for kd in kinds:
+                add(kd, dim, where, c, {"H": H, "W": W, "ops": ring}, un, note="ring_contact_holes_diagonals")
+            add(kinds[0], dim, where, c, {"H": H, "W": W, "ops": blob_ops(H, W, 2, 2, seed)}, un, note="masked_ring")
+
+        for c in sorted(set(int(v) for v in hints)):
+            if c < 8:
+                continue
+            seed = rng.randrange(1 << 30)
+            for where, s in self._sizes(c):
+                d = {"below": -1, "at": 0, "above": 1, "mid": 1, "dbl": 1}[where]
+                # (1) frame pixels, non-square, both orientations
+                f = _factor_near(s, d)
+                if f and f[0] * f[1] <= 300000:
+                    for (H, W) in (f, f[::-1]):
+                        blur_family("frame", where, c, H, W, seed)
+                        sets_family("frame", where, c, H, W, seed)
+                # (2) rows / columns alone (thin frames)
+                if s <= 120000:
+                    for k in (3, 6):
+                        for (H, W) in ((s, k), (k, s)):
+                            if H * W > 300000:
+                                continue
+                            blur_family("side", where, c, H, W, seed)
+                            if k == 3:
+                                sets_family("side", where, c, H, W, seed)
+                # (3) exactly s unmasked pixels (with margins that hold a (3,5) kernel; frame ~1.4 s)
+                if 8 <= s <= 140000:
+                    a = max(2, int((s * 1.15 / 1.5) ** 0.5) + 1)
+                    b = -(-int(s * 1.15 + 1) // a)
+                    if True:
+                        for (H, W) in ((a + 4, b + 6), (b + 4, a + 6))[: 1 if s > 20000 else 2]:
+                            region = (H - 4) * (W - 6)
+                            if region < s:
+                                continue
+                            spec = {"H": H, "W": W, "ops": [["fill", s, 2, H - 2, 3, W - 3]]}
+                            add("blurring", "unmasked", where, c, spec, s, kh=3, kw=5, note="exact_unmasked_count")
+                            add("util", "unmasked", where, c, spec, s, note="exact_unmasked_count")
+                            add("sets", "unmasked", where, c, spec, s, note="exact_unmasked_count")
+                            spec2 = {"H": H, "W": W, "ops": [["fill", s, 0, H, 0, W]]}
+                            add("util", "unmasked", where, c, spec2, s, note="exact_unmasked_count_ring")
+                            add("sets", "unmasked", where, c, spec2, s, note="exact_unmasked_count_ring")
+                # (4) exactly s edge pixels: one-pixel stripes (every unmasked pixel is an edge pixel, only the
+                #     stripe ends and the outer stripes are border pixels)
+                if 12 <= s <= 60000:
+                    L = max(4, int((1.5 * s) ** 0.5))
+                    rows, rest = divmod(s, L)
+                    H, W = 2 * (rows + 1) + 3, L + 4
+                    ops = [["stripes", 2, 2 + 2 * rows, 2, 2 + L, 2]] if rows else []
+                    if rest:
+                        ops.append(["rect", 2 + 2 * rows, 3 + 2 * rows, 2, 2 + rest, 0])
+                    spec = {"H": H, "W": W, "ops": ops}
+                    add("util", "edge", where, c, spec, s, note="exact_edge_count")
+                    add("sets", "edge", where, c, spec, s, note="exact_edge_count")
+                    add("sets", "edge", where, c, {"H": W, "W": H, "ops": [["stripes", 2, W - 2, 2, H - 2, 3],
+                                                                          ["rect", 2, W - 2, H // 2, H // 2 + 1, 0]]},
+                        s, note="stripes_with_bridge")
+                # (5) kernel pixels kh*kw and (6) kernel side
+                if s <= 1500:
+                    ks = _odd_factor_near(s, d)
+                    if ks:
+                        for (kh, kw) in {ks, ks[::-1]}:
+                            self._kernel_cases(add, "kernel", where, c, kh, kw)
+                if s <= 400:
+                    so = s if s % 2 == 1 else s + (1 if d >= 0 else -1)
+                    if so >= 1:
+                        for (kh, kw) in ((so, 3), (3, so), (so, 1), (1, so)):
+                            self._kernel_cases(add, "kside", where, c, kh, kw)
+        # drop the most expensive cases until the estimated total fits the budget (breadth survives)
+        cands.sort(key=lambda t: t[0])
+        keep = []
+        for kd, share in (("blurring", 0.3), ("util", 0.15), ("sets", 0.55)):
+            # round-robin over (dimension, hint, where) groups, cheapest first inside a group: every dimension and
+            # every side of every constant keeps its cheapest cases when the budget cuts
+            groups = {}
+            for t in cands:
+                if t[2]["kind"] == kd:
+                    groups.setdefault((t[2]["tag"], t[2]["hint"], t[2]["where"]), []).append(t)
+            total, alive = 0.0, True
+            while alive and groups:
+                alive = False
+                for g in sorted(groups):
+                    if not groups[g]:
+                        continue
+                    cost, order, case = groups[g][0]
+                    if total + cost > share * self.LARGE_BUDGET_S:
+                        groups[g] = []
+                        continue
+                    groups[g].pop(0)
+                    total += cost
+                    keep.append((order, cost, case))
+                    alive = True
+        # run order: violations of the far side first seen -> interleave by generation order, cheap first inside
+        keep.sort(key=lambda t: (t[1] > 1.0, t[0]))
+        seen = set()
+        for _, _, case in keep:
+            k = str(sorted((kk, str(v)) for kk, v in case.items() if kk not in ("tag", "hint", "where", "scales", "origin")))
+            if k in seen:
+                continue
+            seen.add(k)
+            yield case
+
+    @staticmethod
+    def _kernel_cases(add, dim, where, c, kh, kw):
+        hy, hx = kh // 2, kw // 2
+        for (ey, ex) in ((0, 0), (3, 2)):
+            H, W = kh + ey + 1, kw + ex + 2
+            # single unmasked pixels whose footprint fits exactly on the far sides / leaves by one
+            cy, cx = hy, hx
+            add("blurring", dim, where, c, {"H": H, "W": W, "ops": [["px", cy, cx, 0]]}, 1, kh=kh, kw=kw,
+                note="fits_top_left")
+            add("blurring", dim, where, c, {"H": H, "W": W, "ops": [["px", H - 1 - hy, W - 1 - hx, 0],
+                                                                   ["px", H - 1 - hy, max(hx, W - 2 - hx), 0]]}, 2,
+                kh=kh, kw=kw, note="fits_bottom_right")
+            if hy >= 1:
+                add("blurring", dim, where, c, {"H": H, "W": W, "ops": [["px", H - hy, W - 1 - hx, 0]]}, 1, kh=kh,
+                    kw=kw, note="leaves_bottom_by_one")
+                if ey:
+                    add("blurring", dim, where, c, {"H": H, "W": W, "ops": [["px", hy - 1, hx, 0]]}, 1, kh=kh,
+                        kw=kw, note="leaves_top_by_one")
+            if hx >= 1:
+                add("blurring", dim, where, c, {"H": H, "W": W, "ops": [["px", H - 1 - hy, W - hx, 0]]}, 1, kh=kh,
+                    kw=kw, note="leaves_right_by_one")
+
+    # ------------------------------------------------------------------ history stream (Round 4, L2)
+    HISTORY_TEMPLATES = ["edit", "edit", "twin", "fault", "repoint", "derive", "blurseq", "mixed"]
+
+    def history_cases(self, rng, rounds):
+        for _ in range(rounds):
+            for t in self.HISTORY_TEMPLATES:
+                yield self._gen_history(rng, t)
+
+    def _gen_history(self, rng, template):
+        h, w = rng.randint(2, 7), rng.randint(2, 8)
+        r = rng.random()
+        if r < 0.06:
+            h = 1
+        elif r < 0.12:
+            w = 1
+        margin = 0
+        if template in ("blurseq", "fault", "twin") and rng.random() < 0.8:
+            # room for a kernel: otherwise only (1,1) fits and the blurring mask / grid is empty
+            h, w = rng.randint(4, 8), rng.randint(4, 8)
+            margin = 2 if (min(h, w) >= 6 and rng.random() < 0.3) else 1
+        m, _ = gen.random_mask(rng, h, w, margin=margin)
+        sc, og = self._geom(rng)
+        case = {"tag": f"history_{template}", "kind": "history", "mask": mask_json(m), "scales": sc, "origin": og,
+                "steps": []}
+        sim = _Hist(case, impl=False)
+
+        def add(st):
+            case["steps"].append(st)
+            sim.apply(st)
+
+        def sh():
+            return sim.worlds[sim.cur]["sh"]
+
+        def read(via=None):
+            add({"op": "read", "via": via or rng.choice(["fresh", "fresh", "held", "held", "util"]),
+                 "order": rng.sample(SET_KEYS, len(SET_KEYS)), "decoy": int(rng.random() < 0.35)})
+
+        def touch():
+            pool = SET_KEYS + DI_DECOYS + ["geometry", "pixels_in_mask"]
+            add({"op": "touch", "via": rng.choice(["fresh", "held"]), "keys": rng.sample(pool, rng.randint(1, 3))})
+
+        def bool_key(hh, ww, p=0.3):
+            return {"h": hh, "w": ww, "bits": "".join("1" if rng.random() < p else "0" for _ in range(hh * ww))}
+
+        def edit(how=None, value=None):
+            a = sh()
+            hh, ww = a.shape
+            how = how or rng.choice(["px", "px", "slice", "bool", "boolobj", "attr", "row"])
+            if value is None:
+                value = rng.random() < 0.6
+            if how in ("px", "attr"):
+                # prefer a pixel whose value really changes
+                cand = [(y, x) for y in range(hh) for x in range(ww) if bool(a[y, x]) != bool(value)]
+                y, x = rng.choice(cand) if cand else (rng.randrange(hh), rng.randrange(ww))
+                if rng.random() < 0.15:
+                    y, x = y - hh, x - ww      # negative indices denote the same pixel
+                args = [y, x]
+            elif how == "row":
+                args = [rng.randrange(hh)]
+            elif how == "slice":
+                y0, x0 = rng.randrange(hh), rng.randrange(ww)
+                args = [y0, rng.randint(y0 + 1, hh), x0, rng.randint(x0 + 1, ww)]
+            else:
+                args = bool_key(hh, ww)
+            add({"op": "set", "how": how, "args": args, "value": int(value)})
+
+        def badset():
+            hh, ww = sh().shape
+            if rng.random() < 0.5:
+                add({"op": "set", "how": "bool", "args": bool_key(hh + 1, ww + 2, 0.5), "value": 1})
+            else:
+                add({"op": "set", "how": rng.choice(["px", "attr"]), "args": [hh, rng.randrange(ww)], "value": 1})
+
+        def fit_half():
+            a = sh()
+            hh, ww = a.shape
+            ys, xs = np.nonzero(~a)
+            if ys.size == 0:
+                return 3, 3
+            return (int(min(ys.min(), hh - 1 - ys.max())), int(min(xs.min(), ww - 1 - xs.max())))
+
+        def blur(mode="fit", via=None, kernel=None, kform=None, held=None, grid=None):
+            fy, fx = fit_half()
+            if kernel is None:
+                if mode == "fit":
+                    hy, hx = rng.randint(0, min(fy, 3)), rng.randint(0, min(fx, 3))
+                elif mode == "leave_y":
+                    hy, hx = min(fy + 1, 4), rng.randint(0, min(fx, 3))
+                elif mode == "leave_x":
+                    hy, hx = rng.randint(0, min(fy, 3)), min(fx + 1, 4)
+                else:
+                    hy, hx = rng.randint(0, 3), rng.randint(0, 3)
+                kernel = (2 * hy + 1, 2 * hx + 1)
+            via = via or rng.choice(["mask", "mask", "grid_first", "util"])
+            add({"op": "blur", "via": via, "kh": kernel[0], "kw": kernel[1],
+                 "grid": int(rng.random() < 0.6) if grid is None else int(grid),
+                 "kform": kform or rng.choice(["tuple", "list", "np_int", "held_list"]),
+                 "held": int(rng.random() < 0.4) if held is None else int(held)})
+            return kernel
+
+        def world(name, kind=None):
+            w0 = sim.worlds[sim.cur]
+            a = np.array(w0["sh"], dtype=bool)
+            hh, ww = a.shape
+            sc2, og2 = list(w0["sc"]), list(w0["og"])
+            kind = kind or rng.choice(["scale_rel", "origin_rel", "pixel_move", "pixel_flip", "shuffle", "same",
+                                       "content"])
+            if kind == "scale_rel":
+                for ax in rng.choice([[0], [1], [0, 1]]):
+                    sc2[ax] = q(Fraction(sc2[ax]) * (1 + PERTURB))
+            elif kind == "origin_rel":
+                for ax in rng.choice([[0], [1], [0, 1]]):
+                    o = Fraction(og2[ax])
+                    og2[ax] = q(o * (1 + PERTURB) if o != 0 else TINY)
+            elif kind == "pixel_move":
+                un = [(y, x) for y in range(hh) for x in range(ww) if not a[y, x]]
+                ma = [(y, x) for y in range(hh) for x in range(ww) if a[y, x]]
+                if un and ma:
+                    a[rng.choice(un)] = True
+                    a[rng.choice(ma)] = False
+            elif kind == "pixel_flip":
+                y, x = rng.randrange(hh), rng.randrange(ww)
+                a[y, x] = not a[y, x]
+            elif kind == "shuffle":
+                flat = list(a.ravel())
+                rng.shuffle(flat)
+                a = np.array(flat, dtype=bool).reshape(hh, ww)
+            elif kind == "content":
+                m2, _ = gen.random_mask(rng, hh, ww)
+                a = np.array(m2, dtype=bool)
+                og2 = [q(gen.dyadic(rng, -4, 4, 2)), q(gen.dyadic(rng, -4, 4, 2))]
+            add({"op": "world", "name": name, "h": hh, "w": ww, "bits": _bits_fast(a), "scales": sc2, "origin": og2})
+
+        def switch(name):
+            add({"op": "switch", "name": name})
+
+        def setgeom():
+            w0 = sim.worlds[sim.cur]
+            sc2, og2 = list(w0["sc"]), list(w0["og"])
+            if rng.random() < 0.6:          # near-duplicate geometry
+                ax = rng.randrange(2)
+                if rng.random() < 0.5:
+                    sc2[ax] = q(Fraction(sc2[ax]) * (1 + PERTURB))
+                else:
+                    o = Fraction(og2[ax])
+                    og2[ax] = q(o * (1 + PERTURB) if o != 0 else TINY)
+            else:
+                sc2, og2 = self._geom(rng)
+            add({"op": "setgeom", "scales": sc2, "origin": og2})
+
+        def derive(name, how=None, allow_views=False):
+            hh, ww = sh().shape
+            hows = ["copy", "deepcopy", "copy_method", "invert2", "with_new_array"] + (["rows", "win"] if allow_views else [])
+            how = how or rng.choice(hows)
+            st = {"op": "derive", "how": how, "name": name}
+            if how == "rows":
+                y0 = rng.randrange(hh)
+                st["args"] = [y0, rng.randint(y0 + 1, hh)]
+            elif how == "win":
+                y0, x0 = rng.randrange(hh), rng.randrange(ww)
+                st["args"] = [y0, rng.randint(y0 + 1, hh), x0, rng.randint(x0 + 1, ww)]
+            elif how == "with_new_array":
+                m2, _ = gen.random_mask(rng, hh, ww)
+                st["args"] = _np_mask_json(np.array(m2, dtype=bool))
+            add(st)
+            return how
+
+        if template == "edit":
+            read()
+            if rng.random() < 0.4:
+                touch()
+            for _ in range(rng.randint(1, 2)):
+                edit()
+            read()
+            if rng.random() < 0.6:
+                edit()
+                if rng.random() < 0.5:
+                    blur()
+                read()
+        elif template == "twin":
+            # the SAME calls (same access path, same kernel, grid requested) on near-duplicate worlds, A-B-A
+            via = rng.choice(["fresh", "held", "util"])
+            bv = rng.choice(["mask", "grid_first", "grid_first"])
+            fy, fx = fit_half()
+            k = (2 * rng.randint(0, min(fy, 2)) + 1, 2 * rng.randint(0, min(fx, 2)) + 1)
+            kf = rng.choice(["tuple", "list", "held_list"])
+            order = rng.sample(SET_KEYS, len(SET_KEYS))
+
+            def seq():
+                first = rng.random() < 0.5
+                if first:
+                    add({"op": "read", "via": via, "order": order, "decoy": 0})
+                blur(kernel=k, via=bv, grid=True, kform=kf, held=False)
+                if not first:
+                    add({"op": "read", "via": via, "order": order, "decoy": 0})
+
+            seq()
+            world("B", rng.choice(["scale_rel", "origin_rel", "scale_rel", "origin_rel", "pixel_move", "pixel_flip",
+                                   "shuffle"]))
+            seq()
+            switch("A")
+            seq()
+            if rng.random() < 0.5:
+                setgeom()
+                seq()
+            if rng.random() < 0.3:
+                world("C")
+                seq()
+                switch("B")
+                seq()
+        elif template == "fault":
+            k = blur("fit", via=rng.choice(["mask", "grid_first", "util"]))
+            blur(rng.choice(["leave_y", "leave_x"]))
+            if rng.random() < 0.4:
+                add({"op": "blur", "via": "mask", "kh": rng.choice([2, 4]), "kw": rng.choice([1, 2, 3]), "grid": 0,
+                     "kform": "tuple", "held": 0})
+            blur(kernel=k)
+            read()
+            badset()
+            read()
+            add({"op": "freeze", "on": 1})
+            edit(how=rng.choice(["px", "slice", "attr", "row", "bool"]))
+            read()
+            add({"op": "freeze", "on": 0})
+            edit()
+            read()
+            blur()
+        elif template == "repoint":
+            read("held")
+            world("B", rng.choice(["content", "pixel_move", "scale_rel", "origin_rel", "shuffle"]))
+            if rng.random() < 0.5:
+                read(rng.choice(["fresh", "held"]))
+            switch("A")
+            add({"op": "repoint", "to": "B"})
+            read("held")
+            if rng.random() < 0.5:
+                blur(held=True, via="mask")
+            add({"op": "repoint", "to": "A"})
+            if rng.random() < 0.6:
+                edit()
+            read("held")
+            if rng.random() < 0.5:
+                read("fresh")
+        elif template == "derive":
+            read()
+            views = rng.random() < 0.3
+            how = derive("X", allow_views=views, how=rng.choice(["rows", "win"]) if views else None)
+            if how not in ("rows", "win"):
+                edit()
+            read()
+            if rng.random() < 0.5:
+                blur()
+            switch("A")
+            read()
+            if how not in ("rows", "win") and rng.random() < 0.5:
+                edit()
+                read()
+                switch("X")
+                read()
+        elif template == "blurseq":
+            k1 = blur("fit", kform="held_list" if rng.random() < 0.5 else None, grid=True)
+            blur(kernel=(k1[1], k1[0]), grid=True)
+            if rng.random() < 0.5:
+                blur("any")
+            edit(value=True if rng.random() < 0.7 else None)
+            blur(kernel=k1, grid=True)
+            if rng.random() < 0.5:
+                world("B", rng.choice(["pixel_move", "scale_rel", "origin_rel", "shuffle"]))
+                blur(kernel=k1, grid=True)
+                switch("A")
+                blur(kernel=k1, grid=True)
+        else:  # mixed
+            for _ in range(rng.randint(4, 8)):
+                r = rng.random()
+                if r < 0.3:
+                    read()
+                elif r < 0.55:
+                    edit()
+                elif r < 0.7:
+                    blur(rng.choice(["fit", "fit", "leave_y", "leave_x", "any"]))
+                elif r < 0.78:
+                    touch()
+                elif r < 0.81:
+                    badset()
+                elif r < 0.84:
+                    setgeom()
+                elif r < 0.9 and "B" not in sim.worlds:
+                    world("B")
+                elif r < 0.95 and len(sim.worlds) > 1:
+                    switch(rng.choice(sorted(sim.worlds)))
+                elif "X" not in sim.worlds:
+                    derive("X")
+            read()
+        return case
 
     @staticmethod
     def _mask_with_margins(rng, h, w, my, mx):
@@ -200,8 +1195,12 @@ class C10(PropertyCheck):
         from autoarray import exc
         from autoarray.mask import mask_2d_util
 
-        m = mask_from_json(case["mask"])
         kind = case["kind"]
+        if kind == "history":
+            return {"steps": _Hist(case, impl=True).run()}
+        m = case_mask(case)
+        large = bool(case.get("large"))
+        bits_of, grid_of = (_bits_fast, _grid_f) if large else (_bits, _grid)
         if kind == "util":
             if case.get("mask_form") == "int_nd":
                 m = m.astype(np.int64)
@@ -241,10 +1240,10 @@ class C10(PropertyCheck):
                 "border_slim": [int(v) for v in di.border_slim],
                 "edge_native": [[int(a), int(b)] for a, b in np.asarray(di.edge_native).reshape(-1, 2)],
                 "border_native": [[int(a), int(b)] for a, b in np.asarray(di.border_native).reshape(-1, 2)],
-                "edge_mask": _bits(dm.edge),
-                "border_mask": _bits(dm.border),
-                "edge_grid": _grid(dg.edge),
-                "border_grid": _grid(dg.border),
+                "edge_mask": bits_of(dm.edge),
+                "border_mask": bits_of(dm.border),
+                "edge_grid": grid_of(dg.edge),
+                "border_grid": grid_of(dg.border),
             }
         kshape = (case["kh"], case["kw"])
         if case.get("kshape_form") == "list":
@@ -255,24 +1254,86 @@ class C10(PropertyCheck):
             bm = mask.derive_mask.blurring_from(kernel_shape_native=kshape)
         except exc.MaskException as e:
             return {"err": _err_kind(e)}
-        obs = {"blurring_mask": _bits(bm),
+        obs = {"blurring_mask": bits_of(bm),
                "geometry_kept": [q(v) for v in (*bm.pixel_scales, *bm.origin)] == [*case.get("scales", ["1", "1"]), *case.get("origin", ["0", "0"])]}
         if case.get("grid"):
-            obs["blurring_grid"] = _grid(aa.Grid2D.blurring_grid_from(mask=mask, kernel_shape_native=kshape))
+            obs["blurring_grid"] = grid_of(aa.Grid2D.blurring_grid_from(mask=mask, kernel_shape_native=kshape))
         return obs
 
     # ------------------------------------------------------------------ model
+    MODEL_MAX_PIXELS = 1200   # the List-based Lean model is quadratic in the frame: larger frames are judged by
+                              # the (vectorised, direct) oracle alone
+
+    def _expect(self, case):
+        """per observing step of a history: what a freshly built object in that state must give (shadow run)"""
+        k = id(case)
+        if getattr(self, "_expect_cache", (None, None))[0] != k:
+            self._expect_cache = (k, _Hist(case, impl=False).run(), case)   # keeps `case` alive: id stays unique
+        return self._expect_cache[1]
+
     def model_requests(self, case, impl_obs):
         kind = case["kind"]
+        if kind == "history":
+            reqs = []
+            for e in self._expect(case):
+                mj = _np_mask_json(e["state"]) if "state" in e else None
+                if e["t"] == "read":
+                    reqs.append({"op": "c10.sets", "mask": mj, "scales": e["sc"], "origin": e["og"]})
+                elif e["t"] == "blur":
+                    if e["via"] == "util":
+                        reqs.append({"op": "c10.blurring_util", "mask": mj, "kh": e["kh"], "kw": e["kw"]})
+                    else:
+                        r = {"op": "c10.blurring", "mask": mj, "kh": e["kh"], "kw": e["kw"]}
+                        if e["grid"]:
+                            r.update(grid=True, scales=e["sc"], origin=e["og"])
+                        reqs.append(r)
+            return reqs
+        if "spec" in case:
+            m = case_mask(case)
+            if m.size > self.MODEL_MAX_PIXELS:
+                return []
+            mj = _np_mask_json(m)
+        else:
+            mj = case["mask"]
         if kind in ("util", "sets"):
-            return [{"op": "c10.sets", "mask": case["mask"], "scales": case.get("scales", ["1", "1"]),
+            return [{"op": "c10.sets", "mask": mj, "scales": case.get("scales", ["1", "1"]),
                      "origin": case.get("origin", ["0", "0"])}]
-        req = {"op": "c10.blurring", "mask": case["mask"], "kh": case["kh"], "kw": case["kw"]}
+        req = {"op": "c10.blurring", "mask": mj, "kh": case["kh"], "kw": case["kw"]}
         if case.get("grid"):
             req.update(grid=True, scales=case["scales"], origin=case["origin"])
         return [req]
 
+    def _model_obs_history(self, case, responses):
+        out, k = [], 0
+        for e in self._expect(case):
+            if e["t"] == "set":
+                out.append({"raised": e["raised"]})
+                continue
+            r = responses[k]
+            k += 1
+            if "err" in r:
+                out.append({"err": r["err"]})
+                continue
+            o = r["ok"]
+            if e["t"] == "read":
+                if e["via"] == "util":
+                    out.append({kk: o[kk] for kk in ("edge_slim", "border_slim", "total_edge")})
+                else:
+                    d = {kk: o[kk] for kk in SET_KEYS}
+                    d["edge_grid_mask"], d["border_grid_mask"] = o["edge_mask"], o["border_mask"]
+                    out.append(d)
+            elif e["via"] == "util":
+                out.append({"blurring_mask": o["bits"]})
+            else:
+                d = {"blurring_mask": o["bits"], "geometry_kept": True}
+                if e["grid"]:
+                    d["blurring_grid"] = o["grid"]
+                out.append(d)
+        return {"steps": out}
+
     def model_obs(self, case, responses):
+        if case["kind"] == "history":
+            return self._model_obs_history(case, responses)
         r = responses[0]
         if "err" in r:
             return {"err": r["err"]}
@@ -321,17 +1382,182 @@ class C10(PropertyCheck):
         return ok, detail
 
     def compare(self, case, impl_obs, model_obs, cmp):
-        d = cmp.diff(impl_obs, model_obs)
+        if case["kind"] == "history":
+            impl_obs = {"steps": [{k: v for k, v in e.items() if k != "msg"} if isinstance(e, dict) else e
+                                  for e in impl_obs.get("steps", [])]} if isinstance(impl_obs, dict) and "steps" in impl_obs else impl_obs
+        # bit strings must be compared as strings: `Cmp` parses all-digit strings as rationals, and formatting the
+        # difference of two 300+-digit "numbers" overflows float()
+        d = cmp.diff(self._bitsafe(impl_obs), self._bitsafe(model_obs))
         if d and "corpus_file" not in case:
             if self._disagreements >= self.FAIL_CAP:
                 return None
             self._disagreements += 1
         return d
 
+    @classmethod
+    def _bitsafe(cls, o):
+        if isinstance(o, str):
+            return "b" + o if len(o) > 15 and not o.strip("01") else o
+        if isinstance(o, dict):
+            return {k: (cls._bitsafe(v) if isinstance(v, (str, dict)) or (isinstance(v, list) and k == "steps") else v)
+                    for k, v in o.items()}
+        if isinstance(o, list):
+            return [cls._bitsafe(v) for v in o]
+        return o
+
     def sample_view(self, case):
         return {k: v for k, v in case.items() if not k.startswith("_")}
 
     def _oracle(self, case, obs):
+        if case["kind"] == "history":
+            return self._oracle_history(case, obs)
+        if case.get("large"):
+            return self._oracle_np(case, obs)
+        return self._oracle_small(case, obs)
+
+    def _oracle_history(self, case, obs):
+        if not isinstance(obs, dict) or "steps" not in obs:
+            return False, f"history did not run: {obs}"
+        exp = self._expect(case)
+        got = obs["steps"]
+        if len(exp) != len(got):
+            return False, f"history produced {len(got)} observations, {len(exp)} expected"
+        for k, (e, o) in enumerate(zip(exp, got)):
+            if e["t"] == "set":
+                if bool(o.get("raised")) != bool(e["raised"]):
+                    return False, (f"history observation {k}: in-place edit {'raised' if o.get('raised') else 'did not raise'}"
+                                   f" but the same numpy assignment {'raises' if e['raised'] else 'does not raise'}")
+                continue
+            mj = _np_mask_json(e["state"])
+            if e["t"] == "read":
+                eq = {"kind": "util" if e["via"] == "util" else "sets", "mask": mj, "scales": e["sc"], "origin": e["og"]}
+            else:
+                if e["via"] == "util" and (e["kh"] % 2 == 0 or e["kw"] % 2 == 0):
+                    continue     # the util function has no parity check; the statement is about odd kernels
+                eq = {"kind": "blurring", "mask": mj, "kh": e["kh"], "kw": e["kw"], "scales": e["sc"], "origin": e["og"]}
+            ok, detail = self._oracle_small(eq, o)
+            if not ok:
+                return False, (f"history observation {k} ({e['t']} via {e['via']}) differs from what a freshly built "
+                               f"object in the same state gives: {detail}")
+        return True, ""
+
+    @staticmethod
+    def _shift_or(P, h, w, ry, rx, skip_centre):
+        """OR over the (2ry+1)x(2rx+1) window of the padded array P (pad ry, rx), optionally without the centre"""
+        out = np.zeros((h, w), dtype=bool)
+        for dy in range(2 * ry + 1):
+            for dx in range(2 * rx + 1):
+                if skip_centre and dy == ry and dx == rx:
+                    continue
+                out |= P[dy:dy + h, dx:dx + w]
+        return out
+
+    def _oracle_np(self, case, obs):
+        """the same statement as `_oracle_small`, vectorised for frames of 10^4..10^5 pixels"""
+        m = case_mask(case)
+        h, w = m.shape
+        kind = case["kind"]
+        sc = [float(Fraction(v)) for v in case.get("scales", ["1", "1"])]
+        og = [float(Fraction(v)) for v in case.get("origin", ["0", "0"])]
+
+        def centres(flat):
+            ys, xs = np.divmod(np.asarray(flat, dtype=np.int64), w)
+            return np.stack([og[0] + ((h - 1) / 2.0 - ys) * sc[0], og[1] + (xs - (w - 1) / 2.0) * sc[1]], axis=1)
+
+        def grid_ok(got, flat):
+            if got and isinstance(got[0][0], str):
+                got = [[float(Fraction(a)), float(Fraction(b))] for a, b in got]
+            g = np.asarray(got, dtype=float).reshape(-1, 2)
+            e = centres(flat).reshape(-1, 2)
+            if g.shape != e.shape:
+                return False
+            return bool(np.all(np.abs(g - e) <= 1e-9 * np.maximum(1.0, np.abs(e))))
+
+        def bits_ok(bits, expm):
+            return isinstance(bits, str) and len(bits) == h * w and bool(np.array_equal(_bits_arr(bits, h, w), expm))
+
+        if not isinstance(obs, dict):
+            return False, f"implementation returned {obs!r}"
+        unm = ~m
+        if kind == "blurring":
+            kh, kw = case["kh"], case["kw"]
+            if kh % 2 == 0 or kw % 2 == 0:
+                return (obs.get("err") == "even_kernel"), f"even kernel shape {(kh, kw)} not rejected: {str(obs)[:200]}"
+            hy, hx = kh // 2, kw // 2
+            ys, xs = np.nonzero(unm)
+            inside = ys.size == 0 or (ys.min() >= hy and ys.max() + hy <= h - 1 and xs.min() >= hx and xs.max() + hx <= w - 1)
+            if not inside:
+                if obs.get("err") != "footprint_outside":
+                    return False, (f"a kernel footprint leaves the {h}x{w} array (kernel {(kh, kw)}, unmasked rows "
+                                   f"{int(ys.min())}..{int(ys.max())}, cols {int(xs.min())}..{int(xs.max())}) but no error "
+                                   f"was raised: " + str(obs)[:120])
+                return True, ""
+            if "err" in obs:
+                return False, f"every footprint is inside the array but the call raised {str(obs)[:200]}"
+            P = np.pad(unm, ((hy, hy), (hx, hx)), constant_values=False)
+            exp = ~(self._shift_or(P, h, w, hy, hx, False) & m)
+            if not bits_ok(obs.get("blurring_mask"), exp):
+                return False, "blurring mask is not {masked pixels inside the footprint of an unmasked pixel}"
+            if not obs.get("geometry_kept", True):
+                return False, "blurring mask does not keep pixel scales / origin"
+            if "blurring_grid" in obs and not grid_ok(obs["blurring_grid"], np.flatnonzero(~exp.ravel())):
+                return False, "blurring grid is not the pixel centres of the blurring mask in row-major order"
+            return True, ""
+        if "err" in obs:
+            return False, f"implementation raised {str(obs)[:300]}"
+        unm_flat = np.flatnonzero(unm.ravel())
+        n = unm_flat.size
+        lists = {}
+        for name in ("edge_slim", "border_slim"):
+            a = np.asarray(obs[name], dtype=np.int64).reshape(-1)
+            if a.size and (a.min() < 0 or a.max() >= n):
+                return False, f"{name} holds an index outside the {n} unmasked pixels"
+            if a.size > 1 and not bool(np.all(np.diff(a) > 0)):
+                return False, f"{name} is not strictly ascending"
+            lists[name] = a
+        es, bs = lists["edge_slim"], lists["border_slim"]
+        Eflat = unm_flat[es]
+        Emask = np.zeros(h * w, dtype=bool)
+        Emask[Eflat] = True
+        has_masked_nb = self._shift_or(np.pad(m, 1, constant_values=False), h, w, 1, 1, True)
+        masked_or_absent_nb = self._shift_or(np.pad(m, 1, constant_values=True), h, w, 1, 1, True)
+        bad = np.flatnonzero((unm & has_masked_nb).ravel() & ~Emask)
+        if bad.size:
+            return False, (f"unmasked pixel {tuple(int(v) for v in divmod(int(bad[0]), w))} has a masked in-array "
+                           f"neighbour but is not in the edge set ({bad.size} such pixels)")
+        bad = np.flatnonzero((unm & ~masked_or_absent_nb).ravel() & Emask)
+        if bad.size:
+            return False, (f"pixel {tuple(int(v) for v in divmod(int(bad[0]), w))} has all eight neighbours present "
+                           f"and unmasked but is in the edge set ({bad.size} such pixels)")
+        ones_r, ones_c = np.ones((1, w), dtype=bool), np.ones((h, 1), dtype=bool)
+        cu = np.logical_and.accumulate(m, axis=0)
+        cd = np.logical_and.accumulate(m[::-1], axis=0)[::-1]
+        cl = np.logical_and.accumulate(m, axis=1)
+        cr = np.logical_and.accumulate(m[:, ::-1], axis=1)[:, ::-1]
+        clear = (np.vstack([ones_r, cu[:-1]]) | np.vstack([cd[1:], ones_r])
+                 | np.hstack([ones_c, cl[:, :-1]]) | np.hstack([cr[:, 1:], ones_c]))
+        expB = Eflat[clear.ravel()[Eflat]]
+        Bflat = unm_flat[bs]
+        if not np.array_equal(Bflat, expB):
+            return False, (f"border set ({Bflat.size} pixels) != edge pixels with an all-masked walk to the array "
+                           f"boundary ({expB.size} pixels)")
+        if "total_edge" in obs and obs["total_edge"] != int(es.size):
+            return False, "total_edge_pixels_from disagrees with the number of edge indices"
+        if kind == "sets":
+            for name, S in (("edge", Eflat), ("border", Bflat)):
+                nat = np.asarray(obs[f"{name}_native"], dtype=np.int64).reshape(-1, 2)
+                expn = np.stack(np.divmod(S, w), axis=1).reshape(-1, 2)
+                if not np.array_equal(nat, expn):
+                    return False, f"{name}_native does not denote the pixels of {name}_slim"
+                expm = np.ones(h * w, dtype=bool)
+                expm[S] = False
+                if not bits_ok(obs[f"{name}_mask"], expm.reshape(h, w)):
+                    return False, f"{name} mask is not unmasked exactly on the {name} pixels"
+                if not grid_ok(obs[f"{name}_grid"], S):
+                    return False, f"{name} grid is not the pixel centres of the {name} pixels in slim order"
+        return True, ""
+
+    def _oracle_small(self, case, obs):
         m = mask_from_json(case["mask"])
         h, w = m.shape
         kind = case["kind"]
@@ -414,9 +1640,14 @@ class C10(PropertyCheck):
                 expg = [self._centre(h, w, case["scales"], case["origin"], p) for p in S]
                 if not self._grid_close(obs[f"{name}_grid"], expg):
                     return False, f"{name} grid is not the pixel centres of the {name} pixels in slim order"
+                if f"{name}_grid_mask" in obs and obs[f"{name}_grid_mask"] != _bits(expm):
+                    return False, f"the mask of the {name} grid is not unmasked exactly on the {name} pixels"
         return True, ""
 
     def nontrivial(self, case, obs):
+        if "spec" in case:
+            m = case_mask(case)
+            return bool(m.any() and not m.all())
         b = case["mask"]["bits"]
         return "0" in b and "1" in b
 
@@ -432,7 +1663,85 @@ class C10(PropertyCheck):
             c.pop("corpus_file", None)
             yield c
 
+    FRESH_BUDGET_S = 90.0     # per run, for validating shrunk histories in fresh processes
+    _fresh_spent = 0.0
+
+    def _fresh_fails(self, cases):
+        """does each case fail the oracle when it is the ONLY thing a fresh Python process runs?  A history that
+        fails in this process may do so only because of library state left behind by earlier cases (module-level
+        memo, scratch buffer); a replay must stand on its own, so shrinking keeps only candidates that fail fresh."""
+        import json
+        import os
+        import subprocess
+        import sys
+        import time
+
+        here = os.path.dirname(os.path.abspath(__file__))
+        prog = ("import sys, json; sys.path[:0] = [%r, %r]\n"
+                "import c10\nfrom common import safe_impl\n"
+                "c = json.load(sys.stdin); chk = c10.CHECK\n"
+                "o, sk = safe_impl(chk, c)\n"
+                "ok = True if sk else chk._oracle(c, o)[0]\n"
+                "print('FRESH-FAIL' if not ok else 'FRESH-OK')\n") % (os.path.dirname(here), here)
+        out = []
+        t0 = time.time()
+        for k in range(0, len(cases), 8):
+            procs = []
+            for c in cases[k:k + 8]:
+                p = subprocess.Popen([sys.executable, "-B", "-c", prog], stdin=subprocess.PIPE, stdout=subprocess.PIPE,
+                                     stderr=subprocess.DEVNULL, text=True)
+                p.stdin.write(json.dumps({kk: v for kk, v in c.items() if not kk.startswith("_")}))
+                p.stdin.close()
+                procs.append(p)
+            for p in procs:
+                try:
+                    res = p.stdout.read()
+                    p.wait(timeout=120)
+                except Exception:
+                    res = ""
+                out.append("FRESH-FAIL" in res)
+        self._fresh_spent += time.time() - t0
+        return out
+
     def _shrink(self, case):
+        if case["kind"] == "history":
+            steps = case["steps"]
+            cands = [{**case, "steps": steps[:i] + steps[i + 1:]} for i in range(len(steps))]
+            for i, st in enumerate(steps):
+                if st.get("decoy"):
+                    cands.append({**case, "steps": steps[:i] + [{**st, "decoy": 0}] + steps[i + 1:]})
+            if case.get("scales") not in (None, ["1", "1"]) or case.get("origin") not in (None, ["0", "0"]):
+                if not any(st.get("op") in ("world", "setgeom") for st in steps):
+                    cands.append({**case, "steps": steps, "scales": ["1", "1"], "origin": ["0", "0"]})
+            if self._fresh_spent > self.FRESH_BUDGET_S:
+                return
+            # cheap in-process filter first; only candidates that still fail here are worth a fresh process
+            live = []
+            for c in cands:
+                try:
+                    if not self._oracle(c, self.run_impl(c))[0]:
+                        live.append(c)
+                except Exception:
+                    pass
+            for c, bad in zip(live, self._fresh_fails(live)):
+                if bad:
+                    yield c
+            return
+        if "spec" in case:
+            sp = case["spec"]
+            ops = sp.get("ops", [])
+            for i in range(len(ops)):
+                if len(ops) > 1:
+                    yield {**case, "spec": {**sp, "ops": ops[:i] + ops[i + 1:]}}
+            y0, y1, x0, x1 = sp.get("win", [0, sp["H"], 0, sp["W"]])
+            hh, ww = y1 - y0, x1 - x0
+            for frac in (2, 4, 16, 64, 512):
+                for (a, b, c_, d) in ((hh // frac, 0, 0, 0), (0, hh // frac, 0, 0), (0, 0, ww // frac, 0), (0, 0, 0, ww // frac)):
+                    if (a or b or c_ or d) and y1 - b - (y0 + a) >= 1 and x1 - d - (x0 + c_) >= 1:
+                        yield {**case, "spec": {**sp, "win": [y0 + a, y1 - b, x0 + c_, x1 - d]}}
+            if case.get("scales") not in (None, ["1", "1"]) or case.get("origin") not in (None, ["0", "0"]):
+                yield {**case, "scales": ["1", "1"], "origin": ["0", "0"]}
+            return
         mj = case["mask"]
         bits = mj["bits"]
         h, w = mj["h"], mj["w"]
@@ -455,6 +1764,10 @@ class C10(PropertyCheck):
             yield {**case, "scales": ["1", "1"], "origin": ["0", "0"]}
 
     def theorems_for(self, case):
+        if case["kind"] == "history":
+            return ["C10.blurring_defined_iff", "C10.blurring_unmasks_exactly", "C10.edge_slim_spec",
+                    "C10.edge_contains_and_excludes", "C10.border_iff", "C10.native_views", "C10.mask_views",
+                    "C10.grid_views"]
         if case["kind"] == "blurring":
             return ["C10.blurring_defined_iff", "C10.blurring_unmasks_exactly", "C10.blurring_even_rejected"]
         if case["kind"] == "util":
